@@ -298,3 +298,5 @@ def run(ctx):
                "loses its subscription and its handle", None if deleted else
                render_path(p.events))
     ctx.require("R08.stop", nstop, 1, "close paths that stop listeners")
+
+EXPLANATION += ' Batch 6: field presence is decided by `in` / `is None` (R08.present); the deletion guard is also recognised in its loop spelling; text columns keep text.'
